@@ -132,6 +132,15 @@ def inject_all(cfg):
             new["end"] = new["start"]
         _set_range(c["endpoints"][i], j, new)
         yield "empty-range", f"{eps[i]['name']}[{j}]", c
+        # a negative base whose written element is still non-negative ({base: -size, size, idx: 1} is [0, size));
+        # element 0 of an array would sit below address 0
+        c = copy.deepcopy(cfg)
+        sz = _range_size(r)
+        neg = {"base": -sz, "size": sz, "idx": 1}
+        if r.get("desc") is not None:
+            neg["desc"] = r["desc"]
+        _set_range(c["endpoints"][i], j, neg)
+        yield "negative-base", f"{eps[i]['name']}[{j}]", c
         # self-contradictory (start, end, size that do not agree)
         if "array" not in eps[i]:
             c = copy.deepcopy(cfg)
